@@ -17,6 +17,7 @@ from .. import rig as R, ref, gen, dump, hist, qcore
 from ..orch import h
 
 ID = "C17"
+TECHNIQUE = 'runtime monitoring - garbage-collector oracle over dumps before/after each pass with an injected clock (must go / must stay / free classes of expiration values), orphan rows / index keys, passes on a busy connection pool, the real periodic collector with a failing pass'
 LEVEL = "exploration"
 RULE = (
     "cases = (backend, store of 15-40 events with kinds {1, 19999, 20000, 25000, 29999, 30000} and expiration values "
